@@ -277,6 +277,12 @@ func TestVerifC09FilterCancel(t *testing.T) {
 			}
 			vf.Violation(rt, "filter-cancel "+key, "%s\n%s\n%s\nhistory (step:arrival ns -> outcome): %s", msg, desc, y, hist.String())
 		}
+		abandonedTotal := 0
+		for _, r := range ordered {
+			if r.result == "" && r.status == 0 && r.cancelled && !r.hasWait {
+				abandonedTotal++
+			}
+		}
 		for _, r := range ordered {
 			j0 := int64(r.arrival / P)
 			switch {
@@ -313,7 +319,10 @@ func TestVerifC09FilterCancel(t *testing.T) {
 					fail("wait-exceeds-timeout", "request arriving at +%v waited %v > timeoutDuration %v", r.arrival, d, T)
 					return
 				}
-				if d > 0 && released[j0] < L && abandoned == 0 {
+				// an abandoned waiter holds a permit of an unknown period (possibly this one: a request that
+				// proceeded immediately and was cancelled before the harness saw it return also counts as
+				// abandoned), so the spare-permit clause is only judged in cases without any
+				if d > 0 && released[j0] < L && abandonedTotal == 0 {
 					fail("waits-despite-spare-permit", "request arriving at +%v (period %d, %d/%d released) had to wait %v", r.arrival, j0, released[j0], L, d)
 					return
 				}
